@@ -5,7 +5,7 @@
    dispatch, gauss_prior_kind are the executable rational model (Model/C03_GradQ.v).  Both are tied to the code
    on every run by harness/gen_C03.py (gradient AND logd differences of the same object). *)
 From CV Require Import Base.Tac Base.LinAlg Base.QcLin Model.C03_GradR Model.C03_GradQ.
-From CV Require Import Proofs.C03_GradR Proofs.C03_Quad Proofs.C03_QuadR Proofs.C03_GradQ Proofs.C03_Sym Proofs.C03_LikGen Proofs.C03_Lik.
+From CV Require Import Proofs.C03_GradR Proofs.C03_Quad Proofs.C03_QuadR Proofs.C03_GradQ Proofs.C03_Sym Proofs.C03_LikGen Proofs.C03_Lik Proofs.C03_SymR.
 From Coq Require Import Reals QArith Qcanon.
 From Coquelicot Require Import Coquelicot.
 
@@ -209,6 +209,55 @@ Theorem C03_likelihood_model_derive : forall (n k : nat) (A B P : list (list R))
             (rdot (rlik_grad A B ga gb gc P data th) d).
 Proof. exact lik_model_derive. Qed.
 Print Assumptions C03_likelihood_model_derive.
+
+(* ---------------------------------------------------------------------------------------------
+   3b. the same real-valued statements with the symmetry hypothesis in the executable form the generated cases check
+       (transpose P = P), the GMRF and the full-covariance Lognormal prior *)
+Theorem C03_gaussian_prior_exec : forall (n : nat) (P : list (list R)) (m x d : list R),
+  wf_mat n P -> length P = n -> rtranspose n P = P -> length m = n -> length x = n -> length d = n ->
+  is_derive (fun t => rquad_logk P m (rvadd x (rvscale t d))) 0%R (rdot (rquad_grad P m x) d).
+Proof. exact quad_prior_derive_T. Qed.
+Print Assumptions C03_gaussian_prior_exec.
+
+Theorem C03_linear_likelihood_exec : forall (n k : nat) (P B : list (list R)) (b th d : list R),
+  wf_mat n B -> length B = k -> wf_mat k P -> length P = k -> rtranspose k P = P ->
+  length b = k -> length th = n -> length d = n ->
+  is_derive (fun t => rlin_loglik P B b (rvadd th (rvscale t d))) 0%R (rdot (rlin_grad n P B b th) d).
+Proof. exact linear_likelihood_derive_T. Qed.
+Print Assumptions C03_linear_likelihood_exec.
+
+Theorem C03_likelihood_model_derive_exec : forall (n k : nat) (A B P : list (list R)) (ga gb gc : R) (data th d : list R),
+  wf_mat n A -> wf_mat n B -> length A = k -> length B = k ->
+  wf_mat k P -> length P = k -> rtranspose k P = P ->
+  length data = k -> length th = n -> length d = n ->
+  is_derive (fun t => rlik_logk A B ga gb gc P data (rvadd th (rvscale t d))) 0%R
+            (rdot (rlik_grad A B ga gb gc P data th) d).
+Proof. exact lik_model_derive_T. Qed.
+Print Assumptions C03_likelihood_model_derive_exec.
+
+(* GMRF: for the structure matrix P the log-density uses (any order, boundary condition, 1-d or 2-d grid: only its
+   symmetry enters), -delta P (x - mean) is the gradient of -delta/2 (x - mean)^T P (x - mean) *)
+Theorem C03_gmrf_prior : forall (n : nat) (delta : R) (P : list (list R)) (m x d : list R),
+  wf_mat n P -> length P = n -> rtranspose n P = P -> length m = n -> length x = n -> length d = n ->
+  is_derive (fun t => rgmrf_logk delta P m (rvadd x (rvscale t d))) 0%R (rdot (rgmrf_grad delta P m x) d).
+Proof. exact gmrf_prior_derive. Qed.
+Print Assumptions C03_gmrf_prior.
+
+Theorem C03_gmrf_model_line_exec : forall (n : nat) (delta : Qc) (Pop : list (list Qc)) (m x d : list Qc) (t : Qc),
+  wf_matb n Pop = true -> length Pop = n -> symb n Pop = true -> length m = n -> length x = n -> length d = n ->
+  gmrf_logk delta Pop m (qvadd x (qvscale t d)) =
+  (gmrf_logk delta Pop m x + t * qdot (gmrf_grad delta Pop m x) d - half * (t * t) * (delta * qdot d (qmatvec Pop d)))%Qc.
+Proof. exact gmrf_model_line_exec. Qed.
+Print Assumptions C03_gmrf_model_line_exec.
+
+(* Lognormal prior with a full covariance: diag(1/x) (-1 - P (ln x - m)) is the gradient of
+   -sum ln x_i - 1/2 (ln x - m)^T P (ln x - m) on the support x > 0, along every direction, every dimension *)
+Theorem C03_lognormal_full : forall (n : nat) (P : list (list R)) (m x d : list R),
+  wf_mat n P -> length P = n -> rtranspose n P = P -> length m = n -> length x = n -> length d = n ->
+  List.Forall (fun a => (0 < a)%R) x ->
+  is_derive (fun t => rlognormal_logk P m (rvadd x (rvscale t d))) 0%R (rdot (rlognormal_grad P m x) d).
+Proof. exact lognormal_prior_derive. Qed.
+Print Assumptions C03_lognormal_full.
 
 (* ---------------------------------------------------------------------------------------------
    4. sum rule: Posterior (likelihood + prior) and multiple-likelihood posterior (any number of densities),
